@@ -559,3 +559,29 @@ V("C18", "seed loop stops while species are still waiting", "R18.5", (CLS, "    
 V("C18", "twin: seed loop stops when the pool is falsy", "silent", (CLS, "                    if len(elems) == 0:\n                        break", "                    if not elems:\n                        break"))
 V("C12", "np.unique no longer returns the first positions", "R12.3", (SYM, "_, inside_mask = np.unique(conv_to_prim_map, return_index=True)", "_, inside_mask = np.unique(conv_to_prim_map, return_index=False)"))
 V("C08", "variable vector on the right of the expression matrices", "R08.2", (SYM, "first_test_pos = np.dot(W, Ms) + Cs", "first_test_pos = np.dot(Ms, W) + Cs"))
+
+# ------------------------------------------------------------------------------------------ mutation audit, second batch
+V("C08", "nearest-image fold moves the component away from zero", "R08.2", (SYM, "        indices = np.where(displacements > 0.5)\n        displacements[indices] = displacements[indices] - 1", "        indices = np.where(displacements > 0.5)\n        displacements[indices] = displacements[indices] + 1"))
+V("C08", "per-candidate distance taken over the wrong axis", "R08.2", (SYM, "        distances = np.linalg.norm(displacements, axis=1)", "        distances = np.linalg.norm(displacements, axis=0)"))
+V("C08", "solver adds the constant of the expression", "R08.2", (SYM, "                                    W[idx] = R[icomp] - C[icomp]", "                                    W[idx] = R[icomp] + C[icomp]"))
+V("C08", "free-parameter flag inverted", "R08.4", (SYM, "            if len(variables) != 0:\n                return True", "            if len(variables) == 0:\n                return True"))
+for _pid, _rid in (("C04", "R04.4"), ("C18", "R18.8")):
+    V(_pid, "reduction to 2D attempted for every dimensionality except 2", _rid, (PFD, "                if dimensionality == 2:", "                if dimensionality != 2:"))
+for _pid, _rid in (("C04", "R04.10"), ("C02", "R02.2")):
+    V(_pid, "lengths of the periodic cell vectors taken over the wrong axis", _rid, (PFD, "periodic_span_lengths = np.linalg.norm(periodic_spans, axis=1)", "periodic_span_lengths = np.linalg.norm(periodic_spans, axis=0)"))
+V("C18", "distance of the atoms to the centre of mass over the wrong axis", "R18.5", (CLS, "dist = np.linalg.norm(system.get_positions() - cm, axis=1)", "dist = np.linalg.norm(system.get_positions() - cm, axis=0)"))
+V("C18", "centre-of-mass seeds only when seed_position is not 'cm'", "R18.5", (CLS, "            if self.seed_position == \"cm\":", "            if self.seed_position != \"cm\":"))
+V("C18", "incoming edges read without their data", "R18.6", (LUN, "G.in_edges(node, data=True)", "G.in_edges(node, data=False)"))
+V("C18", "scan of a unit's edges stops at the first finding", "R18.6", (LUN, "                    if positive and negative:\n                        break", "                    if positive or negative:\n                        break"))
+V("C17", "default position tolerance not installed", "R17.7", (CLS, "        if pos_tol_mode == \"relative\" and pos_tol is None:", "        if pos_tol_mode != \"relative\" and pos_tol is None:"))
+V("C17", "relative tolerance divided by the reference distance", "R17.5", (CLS, "self.abs_pos_tol = np.array(self.pos_tol) * global_min_dist", "self.abs_pos_tol = np.array(self.pos_tol) / global_min_dist"))
+V("C11", "layer centred on twice the inverse of the cell diagonal", "R11.2", (SYM, "cell_center = 0.5 * np.sum(ideal_sys.get_cell(), axis=0)", "cell_center = 0.5 / np.sum(ideal_sys.get_cell(), axis=0)"))
+for _pid, _rid in (("C05", "R05.3"), ("C06", "R06.3"), ("C07", "R07.2"), ("C12", "R12.4"), ("C08", "R08.7")):
+    V(_pid, "error for inconsistent candidates raised when they agree", _rid, (SYM, "                    if i_wyckoffs[key] != new_wyckoffs[key]:", "                    if i_wyckoffs[key] == new_wyckoffs[key]:"))
+for _pid, _rid in (("C12", "R12.4"), ("C06", "R06.3")):
+    V(_pid, "lazy computation of the chosen normalizer runs only when it is already there", _rid, (SYM, "        if self._best_transform is None:\n            self.get_conventional_system()", "        if self._best_transform is not None:\n            self.get_conventional_system()"))
+for _pid, _rid in (("C03", "R03.3"), ("C02", "R02.6"), ("C04", "R04.1")):
+    V(_pid, "merged component also kept on its own", _rid, (SBC, "                    isolated = False\n", "                    isolated = True\n"))
+for _pid, _rid in (("C02", "R02.3"), ("C01", "R01.15"), ("C17", "R17.7")):
+    V(_pid, "metric filter of the 2D basis search drops the best candidates", _rid, (PFD, "            max_metric = metric_sum.max()\n            metric_filter = metric_sum == max_metric\n            valid_indices = valid_indices[metric_filter]\n\n            # Find group of cells by finding cells with smallest area",
+      "            max_metric = metric_sum.max()\n            metric_filter = metric_sum != max_metric\n            valid_indices = valid_indices[metric_filter]\n\n            # Find group of cells by finding cells with smallest area"))
